@@ -1039,6 +1039,306 @@ def hash_iter_sites():
     return sorted(out.items())
 
 
+# ---------------------------------------------------------------- order definitions and sort sites
+
+
+def _self_other_compare(fn, op):
+    """`return self.<X> <op> other.<X>` -> text of X (with `self` written `_`), else None"""
+    body = [st for st in fn.body if not (isinstance(st, ast.Expr) and isinstance(st.value, ast.Constant))]
+    # locals bound once before the `return` are put back in (`a, b = self.k, other.k; return a < b`)
+    mapping = {}
+    while body and isinstance(body[0], ast.Assign) and len(body) > 1:
+        st = body.pop(0)
+        for t in st.targets:
+            if isinstance(t, ast.Name):
+                mapping[t.id] = _subst(st.value, mapping)
+            elif isinstance(t, ast.Tuple) and isinstance(st.value, ast.Tuple) and len(t.elts) == len(st.value.elts) \
+                    and all(isinstance(e, ast.Name) for e in t.elts):
+                vals = [_subst(e, mapping) for e in st.value.elts]
+                for e, v_ in zip(t.elts, vals):
+                    mapping[e.id] = v_
+            else:
+                return None
+    if len(body) != 1 or not isinstance(body[0], ast.Return):
+        return None
+    v = _subst(body[0].value, mapping)
+    if not (isinstance(v, ast.Compare) and len(v.ops) == 1 and isinstance(v.ops[0], op)):
+        return None
+    args = [a.arg for a in fn.args.args]
+    if len(args) != 2:
+        return None
+
+    class Ren(ast.NodeTransformer):
+        def __init__(self, frm):
+            self.frm = frm
+
+        def visit_Name(self, n):
+            return ast.copy_location(ast.Name(id="_", ctx=n.ctx), n) if n.id == self.frm else n
+
+    import copy
+    l = ast.unparse(Ren(args[0]).visit(copy.deepcopy(v.left)))
+    r = ast.unparse(Ren(args[1]).visit(copy.deepcopy(v.comparators[0])))
+    if l != r or not l.startswith("_."):
+        return None
+    return l[2:]
+
+
+def order_defs():
+    """every class of ford/*.py that defines `__lt__`: (file:Class, key compared by __lt__, key compared by
+    __eq__ or '', key hashed by __hash__ or '').  `sorted()` over a set of such objects is independent of the
+    iteration order of the set only if the key distinguishes the members of the set: for graph nodes the set
+    keeps one node per `ident` (__eq__/__hash__), so __lt__ has to compare the same attribute."""
+    out = []
+    for path in sorted((common.REPO / "ford").glob("*.py")):
+        tree = ast.parse(path.read_text())
+        for c in ast.walk(tree):
+            if not isinstance(c, ast.ClassDef):
+                continue
+            meths = {m.name: m for m in c.body if isinstance(m, ast.FunctionDef)}
+            if "__lt__" not in meths:
+                continue
+            lt = _self_other_compare(meths["__lt__"], ast.Lt)
+            if lt is None:
+                raise LookupError(f"{path.name}:{c.name}.__lt__ is not `return self.<key> < other.<key>`: "
+                                  + ast.unparse(meths["__lt__"])[:200])
+            eq = ""
+            if "__eq__" in meths:
+                eq = _self_other_compare(meths["__eq__"], ast.Eq)
+                if eq is None:
+                    raise LookupError(f"{path.name}:{c.name}.__eq__ is not `return self.<key> == other.<key>`")
+            hs = ""
+            if "__hash__" in meths:
+                hits = [ast.unparse(n.args[0]) for n in ast.walk(meths["__hash__"])
+                        if isinstance(n, ast.Call) and isinstance(n.func, ast.Name) and n.func.id == "hash" and n.args]
+                if len(hits) != 1 or not hits[0].startswith("self."):
+                    raise LookupError(f"{path.name}:{c.name}.__hash__ does not hash one attribute of self")
+                hs = hits[0][len("self."):]
+            for other in ("__le__", "__gt__", "__ge__"):
+                if other in meths:
+                    raise LookupError(f"{path.name}:{c.name} defines {other}: not the modelled shape")
+            out.append((f"{path.name}:{c.name}", lt, eq, hs))
+    names = [o[0] for o in out]
+    for need in ("graphs.py:BaseNode", "sourceform.py:FortranBase"):
+        if need not in names:
+            raise LookupError(f"{need}.__lt__ not found")
+    return out
+
+
+FS_ENUM_CALLS = {"listdir", "scandir", "glob", "rglob", "iterdir", "walk", "find_all_files", "iglob"}
+
+
+def sort_sites():
+    """every `sorted(..)`, `.sort(..)`, `min/max(.., key=)` of ford/*.py and every `|sort` filter of the templates:
+    (site, kind of input, key).  Kind of input: `hash` (syntactically a hash-ordered collection), `fs` (a file-system
+    enumeration: listdir / glob / iterdir / walk ...), else `other`.  A stable sort on a key that does not distinguish
+    the elements hands the order of its input on, so every site must either use the natural order of the elements
+    (no key; for objects that is `__lt__`, see order_defs) or have been reviewed."""
+    out = []
+    for path in sorted((common.REPO / "ford").glob("*.py")):
+        tree = ast.parse(path.read_text())
+        set_attrs = _file_set_attrs(tree)
+
+        def visit_fn(fn, qual):
+            c = OrderClass(set_attrs, _local_env(fn, set_attrs))
+
+            def kind(e):
+                if e is None:
+                    return "other"
+                if c.cls(e) == "hash":
+                    return "hash"
+                for x in ast.walk(e):
+                    if isinstance(x, ast.Call):
+                        nm, _m = _call_name(x)
+                        if nm in FS_ENUM_CALLS:
+                            return "fs"
+                return "other"
+
+            for n in ast.walk(fn):
+                if isinstance(n, (ast.FunctionDef, ast.AsyncFunctionDef)) and n is not fn:
+                    continue
+                if not isinstance(n, ast.Call):
+                    continue
+                nm, is_m = _call_name(n)
+                kws = {k.arg: k.value for k in n.keywords if k.arg}
+                if nm == "sorted" and not is_m:
+                    arg = n.args[0] if n.args else None
+                    key = kws.get("key", n.args[1] if len(n.args) > 1 else None)
+                    inner, _ = peel(arg) if arg is not None else (None, False)
+                    out.append((f"{path.name}:{qual}: sorted({ast.unparse(inner) if inner is not None else ''})",
+                                kind(arg), ast.unparse(key) if key is not None else "",
+                                "reverse" if "reverse" in kws else ""))
+                elif nm == "sort" and is_m:
+                    key = kws.get("key")
+                    out.append((f"{path.name}:{qual}: {ast.unparse(n.func.value)}.sort()", kind(n.func.value),
+                                ast.unparse(key) if key is not None else "", "reverse" if "reverse" in kws else ""))
+                elif nm in ("min", "max") and not is_m and "key" in kws:
+                    out.append((f"{path.name}:{qual}: {nm}({ast.unparse(n.args[0]) if n.args else ''})",
+                                kind(n.args[0] if n.args else None), ast.unparse(kws["key"]), ""))
+
+        def walk_defs(node, prefix):
+            for ch in ast.iter_child_nodes(node):
+                if isinstance(ch, (ast.FunctionDef, ast.AsyncFunctionDef)):
+                    visit_fn(ch, prefix + ch.name)
+                    walk_defs(ch, prefix + ch.name + ".")
+                elif isinstance(ch, ast.ClassDef):
+                    walk_defs(ch, prefix + ch.name + ".")
+
+        walk_defs(tree, "")
+    # the templates: `x | sort(...)`, `dictsort`, `groupby`, `unique`
+    import jinja2
+    from jinja2 import nodes as jn
+
+    env = jinja2.Environment()
+    tdir = common.REPO / "ford" / "templates"
+    for tp in sorted(tdir.glob("*.html")):
+        try:
+            tt = env.parse(tp.read_text())
+        except Exception as e:  # a template Jinja cannot parse is somebody else's problem, but say so
+            raise LookupError(f"template {tp.name} does not parse: {e}")
+        for f in tt.find_all(jn.Filter):
+            if f.name in ("sort", "dictsort", "groupby", "unique"):
+                args = [_jinja_src(a) for a in f.args] + [f"{k.key}={_jinja_src(k.value)}" for k in f.kwargs]
+                out.append((f"templates/{tp.name}: {_jinja_src(f.node)}|{f.name}", "other", ", ".join(args), ""))
+    if not any(s_[0].startswith("pagetree.py:") for s_ in out) or len(out) < 10:
+        raise LookupError("sort_sites: the scanner no longer finds the sorts of the package (none in pagetree.py)")
+    # one entry per (site, kind, key): several loops over the same expression in one function collapse
+    return sorted(set(out))
+
+
+def _jinja_src(n) -> str:
+    from jinja2 import nodes as jn
+    if isinstance(n, jn.Name):
+        return n.name
+    if isinstance(n, jn.Getattr):
+        return _jinja_src(n.node) + "." + n.attr
+    if isinstance(n, jn.Const):
+        return repr(n.value)
+    if isinstance(n, jn.Filter):
+        return _jinja_src(n.node) + "|" + n.name
+    if isinstance(n, jn.Getitem):
+        return _jinja_src(n.node) + "[..]"
+    return type(n).__name__
+
+
+PAGE_PROBE_ENTRIES = ["index.md", "usage.md", "usage", "FAQ.md", "faq.md", "b.md", "a-b.md", "a.md", "Zeta.md", "notes.txt",
+                      "data.csv", "img", ".hidden.md", "old.md~"]
+PAGE_PROBE_ORDERED = [[], ["b.md", "ghost.md", "usage", "Zeta.md"]]
+
+
+class _ScanOrdered:
+    """stands in for the iterator of os.scandir: the entries in a chosen order"""
+
+    def __init__(self, it, order):
+        with it:
+            self._entries = order(list(it), key=lambda e: e.name)
+
+    def __iter__(self):
+        return iter(self._entries)
+
+    def __enter__(self):
+        return self
+
+    def __exit__(self, *a):
+        return False
+
+    def close(self):
+        pass
+
+
+def page_file_list(natural, ordered, enum):
+    """the model's rule (lean: Order.pageFileList), used to recognise which rule the code follows"""
+    import os
+
+    fl = sorted(enum, key=(lambda n: n) if natural else (lambda n: os.path.splitext(n)[0].lower()))
+    if "index.md" in fl:
+        fl.remove("index.md")
+    merged = list(dict.fromkeys(list(ordered) + fl)) if ordered else fl
+    return [n for n in merged if n[0] != "." and n[-1] != "~"]
+
+
+def page_list_natural():
+    """Does `get_page_tree` walk the entries of a page directory in the order of their *names*, however the file
+    system lists them - and does it follow the modelled rule (`index.md` left out, the `ordered_subpage` list merged in
+    front without duplicates, dot files and `~` backups skipped)?  Observed: the real `get_page_tree` runs on a
+    scratch directory (a page `usage.md` next to a directory `usage/`, `FAQ.md` next to `faq.md`, a hidden file, a
+    backup, other files, a directory without index.md) with a recording stand-in for `PageNode`, with and without an
+    `ordered_subpage` list, while `os.listdir` / `os.scandir` hand out the entries ascending, descending and
+    rotated.  True: pages and files come out as the rule with the plain name order says, every time; False: as the
+    rule with the lower-cased-stem key says (the listing order then shows among equal keys); anything else raises.
+    Returns (natural, description)."""
+    common.import_ford()
+    import contextlib
+    import io
+    import os
+
+    import ford.pagetree as PT
+
+    observed = []
+    with common.scratch_dir("ford-verif-c12-pages-") as scratch:
+        top = Path(scratch) / "pages"
+        top.mkdir()
+        for name in PAGE_PROBE_ENTRIES:
+            if name in ("usage", "img"):
+                (top / name).mkdir()
+            else:
+                (top / name).write_text(f"title: {name}\n---\ntext\n")
+        (top / "usage" / "index.md").write_text("title: usage dir\n---\ntext\n")
+        (top / "img" / "x.png").write_text("no page here\n")
+        names = sorted(os.listdir(top))
+        if names != sorted(PAGE_PROBE_ENTRIES):
+            raise LookupError(f"page probe: scratch directory holds {names}")
+
+        def ascending(xs, key=lambda x: x):
+            return sorted(xs, key=key)
+
+        def descending(xs, key=lambda x: x):
+            return sorted(xs, key=key, reverse=True)
+
+        def rotated(xs, key=lambda x: x):
+            s_ = sorted(xs, key=key)
+            return s_[len(s_) // 2:] + s_[:len(s_) // 2]
+
+        def is_page(n):
+            return (n.endswith(".md") and (top / n).is_file()) or (top / n / "index.md").is_file()
+
+        saved = (PT.PageNode, os.listdir, os.scandir)
+        try:
+            for ordered in PAGE_PROBE_ORDERED:
+                class StubNode:
+                    def __init__(self, md, path, output_dir, proj_copy_subdir, parent, encoding="utf-8", ordered=ordered):
+                        self.src = Path(path)
+                        self.parent = parent
+                        self.ordered_subpages = list(ordered) if self.src == top / "index.md" else []
+                        self.copy_subdir = []
+                        self.subpages = []
+                        self.files = []
+
+                PT.PageNode = StubNode
+                for order in (ascending, descending, rotated):
+                    os.listdir = lambda p_=".", order=order: order(saved[1](p_))
+                    os.scandir = lambda p_=".", order=order: _ScanOrdered(saved[2](p_), order)
+                    with contextlib.redirect_stdout(io.StringIO()), contextlib.redirect_stderr(io.StringIO()):
+                        node = PT.get_page_tree(top, [], Path(scratch) / "out", None)
+                    if node is None:
+                        raise LookupError("page probe: get_page_tree returned no tree")
+                    listing = order(names)
+                    got = ([os.path.relpath(sp.src, top).split(os.sep)[0] for sp in node.subpages], [str(f) for f in node.files])
+                    want = {}
+                    for natural in (True, False):
+                        walk = page_file_list(natural, ordered, listing)
+                        want[natural] = ([n for n in walk if is_page(n)],
+                                         [n for n in walk if (top / n).is_file() and not n.endswith(".md")])
+                    observed.append((got == want[True], got == want[False], got, want[True]))
+        finally:
+            PT.PageNode, os.listdir, os.scandir = saved
+    if all(o[0] for o in observed):
+        return True, "entries walked in name order for every listing order"
+    if all(o[1] for o in observed):
+        return False, "entries walked in the order of their lower-cased stems: the listing order shows among equal keys"
+    bad = next(o for o in observed if not o[0])
+    raise LookupError(f"get_page_tree no longer follows the modelled rule: walked {bad[2]}, the rule says {bad[3]}")
+
+
 def lean_chars(s: str) -> str:
     """char-list literal (fast for `decide`, unlike "..".toList)"""
     def ch(c):
@@ -1071,6 +1371,10 @@ def generate() -> dict:
     hsites = hash_iter_sites()
     ext_by_suffix = extension_by_suffix()
     out_excl = output_dir_excluded()
+    odefs = order_defs()
+    ssites = sort_sites()
+    page_natural, page_src = page_list_natural()
+    lt_of = {o[0]: o[1] for o in odefs}
 
     def pairs(xs):
         return lean_list(f"({lean_str(a)}, {lean_str(b)})" for a, b in xs)
@@ -1128,6 +1432,19 @@ def generate() -> dict:
          + "holds a stale Fortran file): (how the output directory is configured, stale file left out) -/",
          "def outputDirExcludedIn : List (Str × Bool) := "
          + lean_list(f"({lean_chars(s)}, {'true' if b else 'false'})" for s, b in out_excl),
+         "", "/-- every class of ford/*.py with `__lt__`: (class, key compared by __lt__, key of __eq__ or empty, key of __hash__ or empty) -/",
+         "def orderDefs : List (Str × Str × Str × Str) := "
+         + lean_list(f"({lean_chars(a)}, {lean_chars(b)}, {lean_chars(c_)}, {lean_chars(d)})" for a, b, c_, d in odefs),
+         "", f"/-- BaseNode.__lt__ compares `{lt_of['graphs.py:BaseNode']}`: is that the identifier the node sets are keyed by? -/",
+         f"def nodeLtByIdent : Bool := {'true' if lt_of['graphs.py:BaseNode'] == 'ident' else 'false'}",
+         "", f"/-- FortranBase.__lt__ compares `{lt_of['sourceform.py:FortranBase']}`: the identifier? -/",
+         f"def entityLtByIdent : Bool := {'true' if lt_of['sourceform.py:FortranBase'] == 'ident' else 'false'}",
+         "", "/-- every sorted() / .sort() / keyed min,max of ford/*.py and every sort filter of the templates: "
+         "(site, kind of input hash|fs|other, key or empty, `reverse` or empty) -/",
+         "def sortSites : List (Str × Str × Str × Str) := "
+         + lean_list(f"({lean_chars(a)}, {lean_chars(b)}, {lean_chars(c_)}, {lean_chars(d)})" for a, b, c_, d in ssites),
+         "", f"/-- get_page_tree (probed with the page directory listed in several orders): {page_src} -/",
+         f"def pageListNatural : Bool := {'true' if page_natural else 'false'}",
          "", "end Ford.Gen.C12", ""]
     text = "\n".join(L)
     common.write_if_changed(common.LEAN / "FordModel" / "Generated" / "C12.lean", text)
@@ -1138,6 +1455,7 @@ def generate() -> dict:
             "incDirsOrdered": inc_ordered, "inheritedIterOrdered": inh_ordered, "hashIterSites": hsites,
             "inheritedIterables": inh_src, "incDirsKept": inc_src,
             "extensionBySuffix": ext_by_suffix, "outputDirExcludedIn": out_excl,
+            "orderDefs": odefs, "sortSites": ssites, "pageListNatural": page_natural, "pageListing": page_src,
             "find_all_files_returns": find_all_files_returns_set()}
 
 
